@@ -46,7 +46,7 @@ def plan(tier, seed):
     specs = []
     for kind, n in SHARDS[tier]:
         for i in range(n):
-            specs.append({"kind": kind, "idx": i, "n": n, "budget_s": 42 if tier == "quick" else 235})
+            specs.append({"kind": kind, "idx": i, "n": n, "budget_s": 40 if tier == "quick" else 235})
     return specs
 
 
@@ -78,10 +78,16 @@ def run(spec, ctx):
         return
     fams = KIND_FAMS.get(spec["kind"], (spec["kind"],))
     objs = [o for o in O.catalogue() if o.fam in fams]
-    # spread heavy (16-byte block) and light objects evenly
-    objs.sort(key=lambda o: (-o.block if o.fam == "classic" else 0, o.alg))
-    mine = objs[spec["idx"]::spec["n"]]
     E = Engine(ctx, O)
+    # longest-processing-time assignment of the objects to the shards of this kind (same result in every shard)
+    objs.sort(key=lambda o: (-E.cost(o), o.alg))
+    load = [0.0] * spec["n"]
+    mine = []
+    for o in objs:
+        i = load.index(min(load))
+        load[i] += E.cost(o)
+        if i == spec["idx"]:
+            mine.append(o)
     for o in mine:
         E.deterministic(o)
         guard.reset()
@@ -229,6 +235,7 @@ class Engine(object):
             ctx.count("final_combined")
         if getattr(o, "single_msg", False) and o.modefam == "CCM":
             ctx.count("ccm:undeclared")
+        ctx.op(o.alg, inst["dir"], suite, pres_witness(pres) if self.n_eval % 16 == 0 else len(pres.get("msg", ())))
         try:
             got = o.present(S, inst, pres)
         except O.PresErr as pe:
@@ -262,7 +269,8 @@ class Engine(object):
                 bool(pres.get("scribble")), bool(pres.get("ctor_first")), bool(pres.get("final_combined")),
                 bool(pres.get("reseek")), inst.get("badtag", False))
         ctx.case(desc, nontrivial=n > 0 or bool(inst.get("aad")))
-        if ok and ctx.want_sample() and len(pres.get("msg", [])) > 2 and n > 16:
+        if (ok and ctx.want_sample() and suite in ("random", "exhaustive3", "bigblock", "oneshot") and n > 16
+                and len(set(S.kinds)) > 2 and self.n_eval % 97 == 0):
             ctx.sample({"object": o.alg, "dir": inst["dir"], "msg_len": n, "pres": pres_witness(pres),
                         "result_sha256": hashlib.sha256(repr(sorted((k, v) for k, v in got.items() if v is not None)).encode()).hexdigest()[:16]})
         return ok
@@ -340,13 +348,15 @@ class Engine(object):
                     return "buffer-type[%s]" % src
             return "buffer-type[mixed]"
         if not h(self._strip(pres, scribble=True)):
+            # two mechanism classes: output= is a separate buffer / output= is the input's memory
             used = sorted({s[3] for s in pres.get("msg", []) if s[3] != "ret"})
+            cls = lambda pl: "in-place" if pl.startswith("inplace") else "separate-output"
             for pl in used:
                 p = self._strip(pres, kinds=True, scribble=True)
                 p["msg"] = [(lo, hi, kd, pl) for lo, hi, kd, _ in p["msg"]]
                 if not h(p):
-                    return "output-placement[%s]" % pl
-            return "output-placement[%s]" % "+".join(used)
+                    return "output-placement[%s]" % cls(pl)
+            return "output-placement[%s]" % "+".join(sorted({cls(pl) for pl in used}))
         for src in self._sources(pres):
             p = self._strip(pres, kinds=True, keep_source=src)
             if not h(p):
@@ -355,7 +365,8 @@ class Engine(object):
 
     def report_mismatch(self, o, inst, canon, pres, f, got):
         cls = self.diagnose(o, inst, canon, pres, f)
-        key = "%s:%s.%s:%s-differs" % (cls, o.modefam, inst["dir"], f)
+        # digest / MAC tag / verify outcome are one observable ("tag"); ciphertext / plaintext / XOF stream the other ("out")
+        key = "%s:%s:%s-differs" % (cls, o.modefam, "out" if f == "out" else "tag")
         self.ctx.violation(key, "the %s of %s differs from the canonical presentation (%s)" % (f, o.modefam, cls),
                            {"object": o.alg, "field": f, "class": cls, "inst": inst_witness(inst), "pres": pres_witness(pres),
                             "expected": _hx(canon[f]) if isinstance(canon[f], bytes) else canon[f],
@@ -382,6 +393,25 @@ class Engine(object):
                 return 0 if o.alg in ("AES-CTR", "AES-OFB", "AES-OPENPGP", "AES-CFB8", "AES-CFB128") else 2500
             return 0 if o.cname == "DES3" else 400
         return 0
+
+    def cost(self, o):
+        """Rough relative cost of the deterministic part (measured seconds on an idle core), for shard balancing."""
+        if o.fam == "classic":
+            if o.gran > 1:
+                return 0.05
+            if o.cname == "AES":
+                return 1.0 if self.cap3(o) else 6.0
+            return 1.2 if (o.cname == "DES3" or not self.quick) else 0.35
+        if o.fam == "aead":
+            c = {"GCM": 4.4, "EAX": 7.0, "OCB": 4.0, "SIV": 1.0, "ChaCha20_Poly1305": 3.4}.get(o.modefam)
+            if c is None:
+                c = 1.6 if o.single_msg else 5.0
+            return c if self.quick else c * 3
+        if o.fam == "mac":
+            return 4.5 if o.modefam in ("CMAC", "Poly1305") else 0.35
+        if o.fam == "stream":
+            return 1.0
+        return 0.3 + o.block / 300.0
 
     def deterministic(self, o):
         rng = self.rng
